@@ -79,8 +79,9 @@ def check_explicit(rep, t, ns, r, ew, sp, tail, dns, dew, channel):
                                         'why': why, 'pp_desc': d.pp_desc, 'trs': [x.trs for x in d.tracts]})
 
 
-def check_missing(rep, t, ns, r, ew, sp, has_ns, has_ew, tail, channel):
-    """defaults fill the gaps (and only the gaps), with a warning; same tracts as if written out"""
+def check_missing(rep, t, ns, r, ew, sp, has_ns, has_ew, tail, channel, lead=''):
+    """defaults fill the gaps (and only the gaps), with a warning; same tracts as if written out.
+    `lead`: text put in front (e.g. the same Twp/Rge written out in full with its own section: the warning is still due)"""
     dns = ns.lower()
     dew = ew.lower()
     # the written direction is the opposite of the default: the default must not override it
@@ -88,7 +89,7 @@ def check_missing(rep, t, ns, r, ew, sp, has_ns, has_ew, tail, channel):
     alt_ew = 'e' if dew == 'w' else 'w'
     use_ns = dns if not has_ns else alt_ns
     use_ew = dew if not has_ew else alt_ew
-    text = sp + tail
+    text = lead + sp + tail
     canon = f"T{t}{ns}-R{r}{ew}"
     old = (MasterConfig.default_ns, MasterConfig.default_ew)
     try:
@@ -102,7 +103,7 @@ def check_missing(rep, t, ns, r, ew, sp, has_ns, has_ew, tail, channel):
             d = pytrs.PLSSDesc(text)
     finally:
         MasterConfig.default_ns, MasterConfig.default_ew = old
-    ref = pytrs.PLSSDesc(canon + tail)
+    ref = pytrs.PLSSDesc(lead + canon + tail)
     why = None
     if not d.pp_desc.startswith(canon):
         why = f'preprocessed text does not start with {canon}'
@@ -134,6 +135,12 @@ def run(ctx):
         safely(rep, 'explicit', check_explicit, t, ns, rg, ew, sp, tail, 's' if ns == 'N' else 'n', 'e' if ew == 'W' else 'w', channel)
         msp, hn, he = r.choice(missing_dir_spellings(t, ns, rg, ew))
         safely(rep, 'missing', check_missing, t, ns, rg, ew, msp, hn, he, tail, channel)
+        if i % 3 == 0:
+            # the same Twp/Rge once written out in full and once with a direction missing: the filled-in one is still reported
+            lead = f"T{t}{ns}-R{rg}{ew} Sec {r.range(1, 36)}: ALL, "
+            safely(rep, 'missing-repeated', check_missing, t, ns, rg, ew, msp, hn, he, tail, channel, lead)
+            rep.count()
+            rep.nontrivial((lead + msp + tail, channel))
         if sp != f"T{t}{ns}-R{rg}{ew}":
             rep.nontrivial((sp + tail, channel))
         rep.nontrivial((msp + tail, channel))
